@@ -12,10 +12,13 @@ Notation fqty := (qty FX).
 
 Definition fu := (float * string)%type.
 Record row := { r_time : fu; r_pos : list fu; r_spd : list fu; r_acc : list fu; r_tq : list fu; r_dtq : list fu; r_ltq : list fu; r_pwm : float; r_cur : option fu }.
-Inductive expect := EHist (rows : list row) (locked : bool) | EErr (e : exn).
+(** what gearpy did: returned, with the history on record at the end and the solver's flag; or raised, with the instants it had
+    completely recorded since the last reset *)
+Inductive expect := EHist (rows : list row) (locked : bool) | EErr (e : exn) (part : list row).
 
 Record scase := { k_chain : @chain FX; k_load : @loadexpr FX; k_pos0 : fqty; k_spd0 : fqty; k_ops : list (@sop FX);
                   k_more : list (@loadexpr FX * list (@sop FX));      (* further segments after the user re-declared the external torque *)
+                  k_pre : list (list row);                               (* the history gearpy had on record at each reset it executed *)
                   k_expect : expect }.
 Fixpoint exec_segs (c : @chain FX) (segs : list (@loadexpr FX * list (@sop FX))) (st : @sys FX) : res (@sys FX) :=
   match segs with
@@ -49,18 +52,113 @@ Fixpoint rows_code (h : list (fqty * @snap FX)) (rs : list row) (i : N) : N * N 
   | (t, s) :: h', r :: rs' => let c := row_code t s r in if N.eqb c 0 then rows_code h' rs' (N.succ i) else (c, i)
   | _, _ => (11, i)%N
   end.
+(** ** the same operations keeping the state reached when an instant raises.  Used only to ATTRIBUTE a disagreement in which the
+    model raises and gearpy returns: the instants the model recorded before raising are compared with gearpy's, and a field
+    that already differs there is reported instead of the exception.  [run_p_ok] ties it to [run]. *)
+Fixpoint loop_p (c : @chain FX) load ctl (stop : option (@stopcond FX)) (J dt : fqty) (ts : list fqty) (st : @sys FX) : @sys FX * option exn :=
+  match ts with
+  | [] => (st, None)
+  | t :: ts' =>
+      match (v <- integrate (y_live st) dt ;; record_instant c load ctl J t v st (Some dt)) with
+      | Err e => (st, Some e)
+      | Ok (st1, s) =>
+          match (match stop with Some sc => stop_check sc s | None => Ok false end) with
+          | Err e => (st1, Some e)
+          | Ok true => (st1, None)
+          | Ok false => loop_p c load ctl stop J dt ts' st1
+          end
+      end
+  end.
+Definition run_pre (c : @chain FX) load ctl (dt T : fqty) (st : @sys FX) : res (fqty * fqty * @sys FX * Z) :=
+  ge <- q_ge dt T ;;
+  if ge then Err ValueError else
+  J <- equivalent_inertia c ;;
+  r <- (match y_hist st with
+        | (tl, _) :: _ => t0 <- q_to tl (qu dt) ;; Ok (t0, st)
+        | [] =>
+            t0 <- q_new KTime zero (qu dt) ;;
+            r0 <- record_instant c load ctl J t0 (y_live st)
+                    {| y_hist := []; y_live := y_live st; y_locked := false |} None ;;
+            Ok (t0, fst r0)
+        end) ;;
+  let (t0, st0) := r in
+  x <- q_ratio T dt ;;
+  Ok (J, t0, st0, round_half_even x).
+Definition run_p (c : @chain FX) load ctl stop (dt T : fqty) (st : @sys FX) : @sys FX * option exn :=
+  match run_pre c load ctl dt T st with
+  | Err e => (st, Some e)
+  | Ok (J, t0, st0, n) => loop_p c load ctl stop J dt (grid_from (qv t0) (qv dt) (qu dt) 1 (Z.to_nat n)) st0
+  end.
+Definition hist := list (fqty * @snap FX).
+(** run the operations keeping (state reached, exception if any, the histories on record at each executed reset, oldest first) *)
+Fixpoint exec_t (c : @chain FX) load (ops : list (@sop FX)) (st : @sys FX) (acc : list hist) : @sys FX * option exn * list hist :=
+  match ops with
+  | [] => (st, None, acc)
+  | o :: ops' =>
+      match o with
+      | SRun dt T ctl stop =>
+          let (st1, e) := run_p c load ctl stop dt T st in
+          match e with Some x => (st1, Some x, acc) | None => exec_t c load ops' st1 acc end
+      | SReset => match reset st with
+                  | Ok st1 => exec_t c load ops' st1 (acc ++ [rev (y_hist st)])
+                  | Err e => (st, Some e, acc)
+                  end
+      | _ => match step_op c load st o with Ok st1 => exec_t c load ops' st1 acc | Err e => (st, Some e, acc) end
+      end
+  end.
+Fixpoint exec_segs_t (c : @chain FX) (segs : list (@loadexpr FX * list (@sop FX))) (st : @sys FX) (acc : list hist)
+    : @sys FX * option exn * list hist :=
+  match segs with
+  | [] => (st, None, acc)
+  | (l, ops) :: segs' =>
+      match exec_t c (eval_load l) ops st acc with
+      | (st1, None, acc1) => exec_segs_t c segs' st1 acc1
+      | r => r
+      end
+  end.
+(** first differing field over the instants both sides have *)
+Fixpoint rows_code_common (h : hist) (rs : list row) (i : N) : N * N :=
+  match h, rs with
+  | (t, s) :: h', r :: rs' => let c := row_code t s r in if N.eqb c 0 then rows_code_common h' rs' (N.succ i) else (c, i)
+  | _, _ => (0, 0)%N
+  end.
+(** the histories at the resets both sides executed: first difference (complete comparison, lengths included) *)
+Fixpoint first_diff (hs : list hist) (pre : list (list row)) : option (N * N) :=
+  match hs, pre with
+  | h :: hs', p :: pre' => let ci := rows_code h p 0 in if N.eqb (fst ci) 0 then first_diff hs' pre' else Some ci
+  | _, _ => None
+  end.
 Definition exn_code (e : exn) : N :=
   match e with TypeError => 1 | ValueError => 2 | KeyError => 3 | ZeroDivisionError => 4 | NameError => 5 | IndexError => 6
              | AttributeError => 7 | OracleMiss => 8 | OutOfFuel => 9 end.
 Definition case_code (k : scase) : N * N :=
-  let r := exec_segs (k_chain k) ((k_load k, k_ops k) :: k_more k) (initial (k_pos0 k) (k_spd0 k)) in
-  match r, k_expect k with
-  | Ok st, EHist rows locked =>
-      let (c, i) := rows_code (rev (y_hist st)) rows 0 in
-      if negb (N.eqb c 0) then (c, i) else if Bool.eqb (y_locked st) locked then (0, 0)%N else (10, 0)%N
-  | Err e, EErr e' => if exn_eqb e e' then (0, 0)%N else (12, 0)%N
-  | Ok _, EErr _ => (13, 0)%N
-  | Err e, EHist _ _ => (14, exn_code e)%N
+  match exec_segs_t (k_chain k) ((k_load k, k_ops k) :: k_more k) (initial (k_pos0 k) (k_spd0 k)) [] with
+  | (stp, e, hs) =>
+      match first_diff hs (k_pre k) with
+      | Some ci => ci
+      | None =>
+          let cur := rev (y_hist stp) in
+          let nh := length hs in let np := length (k_pre k) in
+          (* the rows of gearpy that the model's current segment corresponds to *)
+          let other := match k_expect k with EHist rows _ => rows | EErr _ part => part end in
+          let mine := if Nat.eqb nh np then other else nth nh (k_pre k) [] in
+          match e, k_expect k with
+          | None, EHist rows locked =>
+              if negb (Nat.eqb nh np) then (11, 0)%N else
+              let ci := rows_code cur rows 0 in
+              if negb (N.eqb (fst ci) 0) then ci else if Bool.eqb (y_locked stp) locked then (0, 0)%N else (10, 0)%N
+          | None, EErr _ part =>                      (* gearpy raised, the model did not *)
+              let ci := if Nat.eqb nh np then rows_code_common cur part 0 else (0, 0)%N in
+              if negb (N.eqb (fst ci) 0) then ci else (13, 0)%N
+          | Some x, EErr e' _ =>
+              let ci := if Nat.leb nh np then rows_code_common cur mine 0 else (0, 0)%N in
+              if negb (N.eqb (fst ci) 0) then ci else
+              if Nat.eqb nh np && exn_eqb x e' then (0, 0)%N else (12, 0)%N
+          | Some x, EHist _ _ =>                      (* the model raised, gearpy returned *)
+              let ci := if Nat.leb nh np then rows_code_common cur mine 0 else (0, 0)%N in
+              if negb (N.eqb (fst ci) 0) then ci else (14, exn_code x)%N
+          end
+      end
   end.
 Fixpoint failing_from (i : N) (l : list scase) : list (N * (N * N)) :=
   match l with
